@@ -13,6 +13,7 @@ import copy
 import math
 import os
 import random
+import shutil
 import re
 import warnings
 
@@ -38,6 +39,7 @@ PROPS = {
 }
 
 W = int(os.environ.get("VERIF_TLC_WORKERS", "16"))
+GAP_MIN = 0.05                   # smallest band gap admitted in the numeric comparisons (named exclusion)
 XYZ = {"x": 0, "y": 1, "z": 2}
 BW = (1, -2)                     # integer weight of band b
 SC = ((1, -2), (3, 2))           # integer scale of (k-point, band) in the component tests
@@ -469,7 +471,7 @@ def numeric_grid(rep, rng, facts, thorough):
         if tuple(g) not in facts:
             raise MachineryError(f"grid {g} is not among the grids of MC_ToGrid")
         fl = sorted((tuple(d), tuple(f)) for d, f in facts[tuple(g)])
-        for _try in range(20):
+        for _try in range(60):
             system = U.random_system(rng, nw=3, generators=gens, lattice=np.diag([1.0, 1.0, 1.3]) if gens else None)
             if names:
                 with quiet():
@@ -477,7 +479,7 @@ def numeric_grid(rep, rng, facts, thorough):
             kpts = [(i0, i1, i2) for i0 in range(g[0]) for i1 in range(g[1]) for i2 in range(g[2])]
             single = {k: U.eval_point(system, np.array(k) / np.array(g), which) for k in kpts}
             gap = min(float(np.min(np.diff(s["Energy"]))) for s in single.values())
-            if gap >= 1e-3:     # per-band vector quantities are ambiguous at degeneracies: take another model
+            if gap >= GAP_MIN:  # per-band quantities are ill-conditioned near degeneracies (error ~ eps/gap^3): take another model
                 break
         else:
             raise MachineryError("no random model without near-degenerate bands on the grid")
@@ -517,6 +519,8 @@ def numeric_grid(rep, rng, facts, thorough):
                         j = np.unravel_index(int(np.argmax(np.max(np.abs(got - exp).reshape(tuple(g) + (-1,)), axis=-1))), tuple(g))
                         rep.violation(f"tabulate_grid:{q}" + (":symmetry" if sym else ""),
                                       dict(detail, grid_point=[int(x) for x in j], maxdiff=dev, tolerance=tol))
+    shutil.rmtree(wd, ignore_errors=True)
+    rep.assume(f"numeric part: models whose bands come closer than {GAP_MIN} eV on the grid are replaced (per-band quantities are ill-conditioned there)")
     rep.part("numeric_only", what="run(TabulatorAll(mode='grid')) vs evaluate_k at every grid point (C order): Energy, Berry curvature (internal terms), "
                                   "velocity; factorisations from TLC; with and without use_irred_kpt/symmetrize",
              runs=nruns, max_deviation=maxdev, tolerance=tol)
